@@ -64,7 +64,21 @@ func vpC13Item(shape int, id IRI) Item {
 	return x
 }
 
-func vpC13ID(c byte) IRI { return IRI("https://h.ex/" + string([]byte{c})) }
+// the component in which the ids of one pool differ: 0 path letter, 1 host letter, 2 port digit,
+// 3 query value (everything else equal)
+var vpC13IDForm int
+
+func vpC13ID(c byte) IRI {
+	switch vpC13IDForm {
+	case 1:
+		return IRI("https://" + string([]byte{c}) + ".ex/x")
+	case 2:
+		return IRI("https://h.ex:80" + string([]byte{'0' + (c - 'a')}) + "/x")
+	case 3:
+		return IRI("https://h.ex/x?k=" + string([]byte{c}))
+	}
+	return IRI("https://h.ex/" + string([]byte{c}))
+}
 
 // vpSameItem: identity of pool items (the reference model's notion of "same item").
 func vpSameItem(a, b Item) bool { return a == b }
@@ -219,6 +233,13 @@ func vpH_C13_step_page()   { vpC13Step(4, 2, 2) }
 func vpH_C13_step_opage()  { vpC13Step(5, 2, 2) }
 func vpH_C13_step_rich_items() { vpC13Step(0, 1, -6) }
 func vpH_C13_step_rich_ocoll() { vpC13Step(3, 1, -6) }
+// ids that differ only in host, only in port, or only in a query value
+func vpH_C13_step_id_forms() {
+	vpC13IDForm = 1 + vpChoice(3)
+	kind := []int{0, 1, 3}[vpChoice(3)]
+	vpC13Step(kind, 1, 2)
+	vpC13IDForm = 0
+}
 func vpH_C13_step3_items() { vpC13Step(0, 3, 1) }
 func vpH_C13_step3_coll()  { vpC13Step(3, 3, 1) }
 
